@@ -18,6 +18,7 @@ EINTR, EAGAIN, EINVAL = -4, -11, -22
 TRANSFER = {
     'source.chunk': (1, 2), 'sink.chunk': (1, 2),
     'source_adapt': (2, 3), 'sink_adapt': (2, 3),
+    'source_adapt_atmost': (2, 3), 'sink_adapt_atmost': (2, 3),
     'source': (1, None), 'sink': (1, None),
     'source.octet': (1, None), 'sink.octet': (1, None),
 }
@@ -290,7 +291,10 @@ def rule_internal_counts(ck, u, ub, so):
 
 
 def rule_e(ck, u, eng, P):
-    for fn in ('source_get_chunk_atmost', 'sink_put_chunk_atmost'):
+    """at-most variants: one driver-path call with (buf, n) whose result is returned; for an octet-style driver that path is
+    an adaptor loop, and "return the count actually moved" then means: a driver error after k >= 1 octets yields k, the
+    error itself only when nothing was moved (decided on the adaptor: rule_atmost_adaptor)"""
+    for fn, adaptor in (('source_get_chunk_atmost', 'source_adapt_atmost'), ('sink_put_chunk_atmost', 'sink_adapt_atmost')):
         if fn not in P:
             continue
         f = u.fn(fn)
@@ -309,8 +313,92 @@ def rule_e(ck, u, eng, P):
                 pi, ci = TRANSFER[tc[0].name]
                 if tc[0].args[pi] != ('v', 'buf') or tc[0].args[ci] != ('v', 'n'):
                     bad = 'driver path called with (%s, %s), expected (buf, n)' % (fmt(tc[0].args[pi]), fmt(tc[0].args[ci]))
+                if tc[0].name in ('source_adapt', 'sink_adapt'):
+                    bad = bad or ('an octet-style driver is served by the exact adaptor %s: a driver error after k >= 1 octets is returned bare, the k octets already '
+                                  'moved are not reported (they vanish for the caller; a drain through a window loses the tail of an octet source)' % tc[0].name)
         ck.verdict(bad is None, 'C17.e', fn, where,
-                   'exactly one driver-path call with (buf, n), result returned' if bad is None else bad)
+                   'exactly one driver-path call with (buf, n), result returned; octet drivers through the at-most adaptor' if bad is None else bad)
+        rule_atmost_adaptor(ck, u, eng, adaptor)
+
+
+def rule_atmost_adaptor(ck, u, eng, fname):
+    """the at-most adaptor over an octet driver: same position / retry discipline as the exact one (C17.b, C17.c), but on a
+    negative driver result other than the retry signals it returns Moved = n - remaining when that is >= 1 and the error
+    unchanged when nothing was moved"""
+    if u.fn(fname) is None:
+        return ck.broken('C17.e', fname, '', 'at-most adaptor missing')
+    where = cast.where(u.fn(fname))
+    try:
+        ps = eng.paths(fname)
+    except (sym.Unsupported, sym.PathLimit) as e:
+        return ck.broken('C17.e', fname, where, str(e))
+    ck.analysed['paths'] += len(ps)
+    n_ = ('v', 'n')
+    bad = None
+    nerr = nprog = nretry = ndone = 0
+    for p in ps:
+        if not p.loops:
+            if p.end == 'return' and p.ret is not None:
+                bad = bad or 'a path returns %s without entering the transfer loop' % fmt(p.ret)
+            continue
+        lmap = p.loops[-1][1]
+        rem = [(k, h) for k, (h, pre) in lmap.items() if pre == n_]
+        if len(rem) != 1:
+            return ck.broken('C17.e', fname, where, 'cannot identify the remaining-count variable')
+        rk, h_r = rem[0]
+        moved = L(n_) - L(h_r)
+        facts = eng.path_facts(p)
+        tc = transfer_calls(p)
+        if not tc:
+            if p.end == 'return':
+                ndone += 1
+                if not (eng.entails(facts, L(h_r)) and eng.entails(facts, -L(h_r))) or strip_cast(p.ret) != n_:
+                    bad = bad or 'the loop is left with octets remaining, or the completed request does not return n'
+            continue
+        if len(tc) != 1:
+            bad = bad or '%d driver calls in one iteration' % len(tc)
+            continue
+        r = tc[0].result
+        pos = position(tc[0].args[TRANSFER[tc[0].name][0]])
+        d = L(pos) - (L(('v', 'buf')) + moved)
+        if not (d.is_const() and d.c == 0) and not eng.entails(facts, d) :
+            bad = bad or 'the driver is given position %s, expected buf + (n - remaining)' % fmt(pos)
+        if p.end == 'return':
+            nerr += 1
+            if not eng.entails(facts, L(r) + 1):
+                bad = bad or 'returns from inside the loop although the driver did not fail'
+            if eng.feasible(p.cond_terms(), [L(r) - EINTR, -L(r) + EINTR]) or eng.feasible(p.cond_terms(), [L(r) - EAGAIN, -L(r) + EAGAIN]):
+                bad = bad or 'a retry signal leaves the loop'
+            some = eng.entails(facts, Lin.const(1) - moved)
+            none = eng.entails(facts, moved)
+            ret = strip_cast(p.ret)
+            if some:
+                dm = L(ret) - moved
+                if not (dm.is_const() and dm.c == 0):
+                    bad = bad or 'after %s octets moved the error exit returns %s, expected the count moved' % (moved, fmt(p.ret))
+            elif none:
+                if ret != r:
+                    bad = bad or 'with nothing moved the error exit returns %s, expected the driver\'s error' % fmt(p.ret)
+            else:
+                bad = bad or ('the error exit {%s} does not distinguish "octets already moved" from "nothing moved": it returns %s in both cases, so either moved octets '
+                              'go unreported or an error is reported as a count' % ('; '.join(fmt(c) for c in p.cond_terms()[-3:]), fmt(p.ret)))
+            continue
+        after = p.mem.get(rk, h_r)
+        mv = L(h_r) - L(after)
+        if mv.is_const() and mv.c == 0:
+            nretry += 1
+            if not any(c == ('cmp', '==', r, C(EINTR)) or c == ('cmp', '==', r, C(EAGAIN)) for c in p.cond_terms()):
+                bad = bad or 'repeats without progress under {%s}' % '; '.join(fmt(c) for c in p.cond_terms()[-3:])
+        else:
+            nprog += 1
+            dd = mv - L(r)
+            if not (dd.is_const() and dd.c == 0):
+                bad = bad or 'remaining count decreases by %s, driver moved %s' % (mv, fmt(r))
+    if bad is None and not (nerr >= 2 and nprog >= 1 and nretry >= 1 and ndone >= 1):
+        bad = 'expected error exits for both cases, a progress, a retry and a completion path (found %d/%d/%d/%d)' % (nerr, nprog, nretry, ndone)
+    ck.verdict(bad is None, 'C17.e', fname, where,
+               'octet driver at most n: position buf + moved, retries only on the retry signals, on a driver error returns the count moved when >= 1 and the error when 0, n on completion'
+               if bad is None else bad)
 
 
 def rule_f(ck, u, ub, so, P, engf):
@@ -395,16 +483,21 @@ def rule_f(ck, u, ub, so, P, engf):
         sig = [c for c in p.cond_terms() if c[0] == 'cmp' and c[1] == '==' and strip_cast(c[2]) == r and sym.is_c(c[3])]
         if sig and all(c[3][1] in (EINTR, EAGAIN) for c in sig):
             return None
-        for k, (h, pre) in lmap.items():
-            if not eng_is_bool(k):
-                continue
-            post = p.mem.get(k, h)
-            was_false = engf.entails(facts, L(h)) and engf.entails(facts, -L(h))
-            if was_false and sym.is_c(post) and post[1] == 1:
-                return None
-        return ('the loop is repeated after the step failed with %s under {%s} without a one-way change of route: the same failing step is '
-                'taken again and again (each attempt may pull more octets out of the source), the call never returns or ends with the '
-                'source\'s end instead of the error' % (fmt(sig[0][3]) if sig else 'a negative result', '; '.join(fmt(c) for c in p.cond_terms()[-3:])))
+        # (a switch of route does not make the repetition safe either: the step that failed has taken its octets from the
+        # source, the next one takes new ones - what reaches the sink is then no prefix of the stream)
+        return ('the loop is repeated after the step failed with %s under {%s}: the failed step has already taken octets from the source, '
+                'so the next attempt delivers later octets in their place (the sink no longer holds a prefix of the stream), and a lasting '
+                'failure repeats for ever' % (fmt(sig[0][3]) if sig else 'a negative result', '; '.join(fmt(c) for c in p.cond_terms()[-3:])))
+
+    def retry_signal_ends(p, r):
+        """a step answering -EINTR / -EAGAIN has moved nothing and asks to be repeated: it must not end a counted or
+        draining transfer (the chunk calls and the octet adaptors repeat it; a chunk driver called directly hands it up)"""
+        leak = [nm for nm, v in (('-EINTR', EINTR), ('-EAGAIN', EAGAIN)) if engf.feasible(p.cond_terms() + [('cmp', '==', r, C(v))])]
+        if leak:
+            return ('%s from the step ends the transfer under {%s}: nothing is wrong with the stream, but the caller gets an error after part of the '
+                    'octets were moved (a chunk-style source interrupted once makes the plumbing give up where the per-octet path carries on)'
+                    % ('/'.join(leak), '; '.join(fmt(c) for c in p.cond_terms()[-3:])))
+        return None
 
     def counted(fn, step, step_bound_arg=None, unit=None):
         if fn not in P:
@@ -461,6 +554,8 @@ def rule_f(ck, u, ub, so, P, engf):
             if p.end == 'return':
                 if strip_cast(p.ret) == r and engf.entails(facts, L(r) + 1):
                     seen_err = True
+                    if fn != 'sts_n_cbc':
+                        bad = bad or retry_signal_ends(p, r)
                 else:
                     bad = 'in-loop return is not the negative step result'
                 continue
@@ -503,6 +598,8 @@ def rule_f(ck, u, ub, so, P, engf):
                 r = st[-1].result
                 if strip_cast(p.ret) == r and any(c == ('cmp', '<', r, C(0)) for c in p.cond_terms()):
                     ok_ret = True
+                    if fn != 'sts_drain_cbc':
+                        bad = bad or retry_signal_ends(p, r)
                 else:
                     bad = 'drain returns %s under {%s}' % (fmt(p.ret), '; '.join(fmt(c) for c in p.cond_terms()[-2:]))
             elif p.end == 'loopback' and st and p.loops:
@@ -631,7 +728,12 @@ def rule_ext(ck, u, ub, so):
         ntr = 0
         for p in ps:
             gb = [e for e in p.effects if e.kind == 'icall' and e.name.endswith('getbuffer')]
-            tr = [e for e in p.effects if (e.kind == 'icall' and e.name == 'source.chunk') or (e.kind == 'call' and e.name == 'source_get_chunk')]
+            tr = [e for e in p.effects if (e.kind == 'icall' and e.name == 'source.chunk') or
+                  (e.kind == 'call' and e.name in ('source_get_chunk', 'source_get_chunk_atmost'))]
+            exact = [e for e in tr if e.name == 'source_get_chunk']
+            if exact:
+                bad = bad or ('the window is filled with the exact source_get_chunk: a source that ends (or fails) inside the window loses the octets it had '
+                              'already delivered - the step is an at-most step and has to report them')
             if not gb:
                 if tr:
                     bad = 'transfer without an exposed buffer'
